@@ -612,14 +612,25 @@ fn semver_string(rng: &mut Rng) -> String {
         (*rng.pick(&[
             "0", "1", "9", "10", "00", "01", "a", "A", "alpha", "beta", "rc", "-", "a-b", "0a", "00a", "x1",
             "99999999999999999999999", "", "é", "b7",
+            // lengths around the crate's inline / heap identifier boundary (8 bytes) and beyond
+            "abcdefg", "abcdefgh", "abcdefghi", "1234567", "12345678", "123456789", "abcdefghijklmnop", "abcdefghijklmnopq",
         ]))
         .to_string()
     };
+    // one string in sixteen: a very long identifier (255 / 256 / 257 / 1025 characters)
+    let long_ident = |rng: &mut Rng| -> String {
+        let n = *rng.pick(&[255usize, 256, 257, 1025]);
+        let c = *rng.pick(&['a', '7', '-']);
+        let mut s: String = std::iter::repeat(c).take(n - 1).collect();
+        s.push(*rng.pick(&['a', 'b', '0', '1']));
+        s
+    };
     let mut s = format!("{}.{}.{}", num(rng), num(rng), num(rng));
     if rng.chance(1, 2) {
-        let k = rng.range(1, 3);
+        // sometimes many identifiers (17 / 33 / 65)
+        let k = if rng.chance(1, 16) { *rng.pick(&[17usize, 33, 65]) } else { rng.range(1, 3) };
         s.push('-');
-        s.push_str(&(0..k).map(|_| ident(rng)).collect::<Vec<_>>().join("."));
+        s.push_str(&(0..k).map(|_| if rng.chance(1, 16) { long_ident(rng) } else { ident(rng) }).collect::<Vec<_>>().join("."));
     }
     if rng.chance(1, 3) {
         let k = rng.range(1, 3);
